@@ -31,7 +31,7 @@ RULE = ("scenario = establishment outcome x 0..4 messages with per-request answe
 PROBES = ["establish_failed_status", "establish_no_announcement", "announce_at_timeout_edge", "event_before_202", "event_after_202", "silence_timeout",
           "post_failed", "chunk_inside_event", "chunk_inside_utf8", "server_push_delivered", "exit_cancel_scope", "exit_task_cancel",
           "exit_exception", "cancel_while_waiting_for_event", "stream_died", "int_request_id", "push_right_after_response_event"]
-TIERS = {"quick": {"runs": 2500, "wall": 45.0}, "thorough": {"runs": 100000, "wall": 540.0}}
+TIERS = {"quick": {"runs": 12000, "wall": 45.0}, "thorough": {"runs": 800000, "wall": 560.0}}
 ASSUMPTIONS = [
     "httpx timeouts are raised by the fake at the configured instant; an event stream idle for `timeout` seconds raises ReadTimeout as real httpx does (the fake server sends keep-alive comments unless the scenario kills the stream)",
     "an announcement / answer landing exactly at a timeout instant accepts both outcomes",
